@@ -340,6 +340,35 @@ func (a *Act) modelCall2(ctx *blockCtx, key string, callee *ssa.Function, c *ssa
 				return Val{}, []Val{bs, errv}, true
 			}
 		}
+	case "sort.Stable":
+		// sort.Stable(sortByteSlices(x)) permutes the elements of x in place. Slices are values in this
+		// model, so the SSA value the slice came from is re-bound to the sorted slice (sound as long as
+		// no other alias of the backing array is used afterwards: checked syntactically below).
+		if bv, ok := g.boxed[args[0].T]; ok && bv.S == "(Slc (Slc Int))" {
+			sf := g.w.specFuns["sortLex"]
+			if sf == nil {
+				return Val{}, nil, false
+			}
+			root := c.Args[0]
+			for {
+				switch r := root.(type) {
+				case *ssa.MakeInterface:
+					root = r.X
+					continue
+				case *ssa.ChangeType:
+					root = r.X
+					continue
+				}
+				break
+			}
+			sorted := Val{T: "(" + sf.SMTName + " " + bv.T + ")", S: bv.S, G: root.Type()}
+			nm := g.fresh("sorted", sorted.S)
+			g.fact("(= " + nm + " " + sorted.T + ")")
+			sorted.T = nm
+			a.rebinds = append(a.rebinds, rebind{root: root, val: sorted, blk: a.curBlk, idx: a.curIdx})
+			g.usedAssumed["sort.Stable with a strict weak order whose equivalence is equality returns the sorted permutation (sortLex); Less of sortByteSlices is bytes.Compare == -1"] = true
+			return Val{T: "0", S: "Int"}, nil, true
+		}
 	case "strings.HasPrefix", "strings.HasSuffix":
 		if lit, ok := g.litOf(args[1].T); ok {
 			g.usedAssumed[key+" (built-in model for literal argument)"] = true
